@@ -59,7 +59,8 @@ CFG = {
             "from 1s..2h, each use case started when scheduled; (race) 1..4 servers reported long ago, one real cleanup pass interleaved at "
             "repository-call granularity with one re-report or keepalive of one of them placed after the pass's k-th call (before the scan, "
             "between scan and delete, between deletes) or after the FIRST STORAGE COMMAND of the scan (between the index read and the record fetch), retention boundary at +0/+256/+512ns; compared: repository calls, results, keyspace; "
-            "oracle: an independent bookkeeping simulator (exists / last refresh / last write per address) for listings and removals, and "
+            "oracle: an independent bookkeeping simulator (exists / last refresh / last write per address; address / last write per instance) for listings, "
+            "server removals, instance removals (the final instance table, and keepalives succeed iff instance and server are still stored), and "
             "'the refreshed server survives, the stale ones are removed' for races",
     "assumptions": [
         "each repository call is atomic at its commit (C09); the race is generated at call granularity",
@@ -69,7 +70,14 @@ CFG = {
         "rows sit under their own address key (Keyed: hypothesis of clean_complete / refreshedAt_changes_only_by; invariant by C16 keyed_preserved and refLeUpd_preserved)",
         "instance cleanup uses an inclusive bound where server cleanup uses an exclusive one (as coded; both mirrored)",
     ],
-    "trusted_base": COMMON_TRUSTED,
+    "trusted_base": COMMON_TRUSTED + [
+        "driver-implemented oracle semantics in lean/Swat4/Drv/C14.lean (not Model/ or Spec/ definitions): the bookkeeping simulator `Sim` / `Sim.touch` / "
+        "`Sim.apply` (per address: exists, last refresh, last write; per instance id: address, ip, last write = the report that stored it; report / keepalive / "
+        "probe / list / clean / cleanins rules: a listing = the servers refreshed since clock - liveness, clean removes servers with last write < clock - retention, "
+        "cleanins removes instances with last write <= clock - retention (inclusive, as coded), a keepalive succeeds iff its instance and the server it names are "
+        "both still stored), the final comparison of the SV and IN/IU dump lines with the bookkeeping (svAddrs, inAddrs, inWrites), `othersBy` (race op) and "
+        "`handleCleaner` (no stale server after a healthy last pass, no stale instance after any last pass)",
+    ],
     "manifest": {
         "text": "Lean theorems: listed_iff_live (a listing is exactly status AND refreshedAt >= now - liveness, with no dependence on cleanup), "
                 "scan_selects_stale (the pass scans exactly updatedAt < cutoff), C14_race (for every list of scanned copies, a server whose stored "
